@@ -48,6 +48,10 @@ type Req struct {
 	Retries         int
 	Svsm            []byte
 	ViaCLI          bool
+	// BoolSpelling (command-line path) picks how boolean flags are written: 0 the bare flag; 1-6 one
+	// of the other spellings the flag library takes for true (=true =1 =t =T =TRUE =True); 7-9 flags
+	// that are off are spelled out as =false / =0 / =F instead of being left away.
+	BoolSpelling int
 	// Reuse, when set (library path), is an endorse.Context an earlier run already went through.
 	Reuse *endorse.Context
 	// SeedVCSs pre-populates Context.VCSs (the documented multi-back-end transition field).
@@ -67,6 +71,9 @@ func (q Req) String() string {
 	kg := ""
 	if q.KeepGoing {
 		kg = " keep_going"
+	}
+	if q.ViaCLI && q.BoolSpelling != 0 {
+		kg += fmt.Sprintf(" bool-flag-spelling=%d", q.BoolSpelling)
 	}
 	return fmt.Sprintf("endorse(img=%s cand=%q ow=%v"+kg+" snap=%q dry=%v mo=%v snp=%v tdx=%v vmsas=%d shapes=%v ea=%v retries=%d cli=%v)",
 		q.Image.Name, q.Candidate, q.Overwrite, q.SnapshotDir, q.DryRun, q.MeasurementOnly, q.SNP, q.TDX, q.LaunchVmsas, q.Shapes, q.EarlyAccept, q.Retries, q.ViaCLI)
@@ -205,6 +212,19 @@ func BuildContext(vcs endorse.VersionControl, q Req) *endorse.Context {
 	return ec
 }
 
+// boolFlag writes one boolean flag in the spelling sp (see Req.BoolSpelling).
+func boolFlag(name string, on bool, sp int) []string {
+	switch {
+	case on && sp >= 1 && sp <= 6:
+		return []string{name + "=" + []string{"true", "1", "t", "T", "TRUE", "True"}[sp-1]}
+	case on:
+		return []string{name}
+	case sp >= 7 && sp <= 9:
+		return []string{name + "=" + []string{"false", "0", "F"}[sp-7]}
+	}
+	return nil
+}
+
 func endorseCLI(a *worlda.Authority, vcs endorse.VersionControl, q Req, scratch string) error {
 	fw := filepath.Join(scratch, q.Image.Name)
 	if _, err := os.Stat(fw); err != nil {
@@ -223,23 +243,16 @@ func endorseCLI(a *worlda.Authority, vcs endorse.VersionControl, q Req, scratch 
 	if q.Candidate != "" {
 		args = append(args, "--candidate_name", q.Candidate)
 	}
-	if q.Overwrite {
-		args = append(args, "--overwrite")
-	}
-	if q.KeepGoing {
-		args = append(args, "--keep_going")
-	}
+	sp := q.BoolSpelling
+	args = append(args, boolFlag("--overwrite", q.Overwrite, sp)...)
+	args = append(args, boolFlag("--keep_going", q.KeepGoing, sp)...)
 	if q.SnapshotDir != "" {
 		args = append(args, "--snapshot_dir", q.SnapshotDir)
 	}
-	if q.DryRun {
-		args = append(args, "--dry_run")
-	}
-	if q.MeasurementOnly {
-		args = append(args, "--measurement_only")
-	}
+	args = append(args, boolFlag("--dry_run", q.DryRun, sp)...)
+	args = append(args, boolFlag("--measurement_only", q.MeasurementOnly, sp)...)
+	args = append(args, boolFlag("--add_snp", q.SNP, sp)...)
 	if q.SNP {
-		args = append(args, "--add_snp")
 		if q.LaunchVmsas != 0 {
 			args = append(args, "--snp_launch_vmsas", fmt.Sprint(q.LaunchVmsas))
 		}
@@ -247,14 +260,12 @@ func endorseCLI(a *worlda.Authority, vcs endorse.VersionControl, q Req, scratch 
 			args = append(args, "--snp_product", "Genoa")
 		}
 	}
+	args = append(args, boolFlag("--add_tdx", q.TDX, sp)...)
 	if q.TDX {
-		args = append(args, "--add_tdx")
 		if len(q.Shapes) > 0 {
 			args = append(args, "--tdx_machine_shapes", strings.Join(q.Shapes, ","))
 		}
-		if q.EarlyAccept {
-			args = append(args, "--tdx_include_early_accept")
-		}
+		args = append(args, boolFlag("--tdx_include_early_accept", q.EarlyAccept, sp)...)
 	}
 	if len(q.Svsm) != 0 {
 		p := filepath.Join(scratch, "svsm-measurement.txt")
